@@ -105,7 +105,16 @@ def prepare(desc, call_seed, outdir):
         iface = lg.build_iface(desc, hold_back=(s0["name"], rng.randint(1, len(s0["members"]))), between=between)
     else:
         iface = lg.build_iface(desc)
-    kj.generate("proto", outdir, iface=iface, ns=desc["ns"], name=desc["cls"], copy_other=True)
+    # the host the generator runs on is no input: a share of the interfaces is generated "on" another platform
+    import sys as _sys
+    host = rng.choice([None, None, None, "win32", "darwin"])
+    saved_platform = _sys.platform
+    try:
+        if host:
+            _sys.platform = host
+        kj.generate("proto", outdir, iface=iface, ns=desc["ns"], name=desc["cls"], copy_other=True)
+    finally:
+        _sys.platform = saved_platform
     oracle = lg.Oracle(desc)
     calls = plan_calls(rng, desc, oracle)
     probe_calls = []
